@@ -291,6 +291,8 @@ class Interp:
         if isinstance(st, ast.Delete):
             return [("normal", s, env, None, trail)]
         if isinstance(st, (ast.With, ast.AsyncWith)):
+            if getattr(st, "_opaque_cm", None):
+                raise AnalysisError("E9: " + st._opaque_cm)
             return self.block(st.body, s, env, trail, qual)
         raise AnalysisError(f"E9: statement kind {type(st).__name__} at line {st.lineno} of {qual} is not supported")
 
